@@ -7,6 +7,9 @@ From Sdns Require Export Common.Base Gen.C18 C18.Model C18.Spec.
 From Sdns Require Export C18.Lit.
 Open Scope N_scope.
 
+(* API calls and refreshes (with the lists they downloaded) in the order they took effect *)
+Inductive rhstep := RHOp (o : op) (ret : N) | RHRefresh (downloads : list str).
+
 Inductive sstep := SMut (o : op) (ex wi : list str) | SPersist (i : nat).
 
 Inductive case :=
@@ -29,6 +32,8 @@ Inductive case :=
      lying in the directory at that moment *)
 | CaseRefresh (m0 wild0 w : list str) (file0 : option str) (downloads : list str) (o : op) (ret : N)
               (m1 wild1 : list str) (file1 : option str)
+  (* a history of API calls and refreshes that bring remote lists *)
+| CaseRHistory (m0 wild0 w : list str) (steps : list rhstep) (m1 wild1 : list str) (file : option str)
   (* restart: configured whitelist/blocklist + directory files in walk order -> memory of the fresh list;
      mem_m/mem_wild is the memory of the list that wrote the files *)
 | CaseReload (whitelist blocklist : list str) (files : list str) (mem_m mem_wild : list str) (re_m re_wild re_w : list str)
@@ -101,6 +106,15 @@ Fixpoint run_sched (steps : list sstep) (s : sys) : bool * sys :=
   | SPersist i :: r => run_sched r (sys_persist i s)
   end.
 
+Fixpoint run_rh (steps : list rhstep) (s : sys) : bool * sys :=
+  match steps with
+  | [] => (true, s)
+  | RHOp o ret :: r =>
+      let '(ret', s') := sys_call o s in
+      let '(ok, s'') := run_rh r s' in ((ret =? ret') && ok, s'')
+  | RHRefresh dl :: r => run_rh r (sys_refresh dl s)
+  end.
+
 Definition any_success (ops : list (op * N)) : bool := existsb (fun p => negb (snd p =? 0)) ops.
 
 (* ---- specification side: the three maps as names *)
@@ -138,6 +152,17 @@ Definition listed_probe (ck : str) : option str :=
   | 42 :: 46 :: sfx => match sfx with [] => None | [_] => None | _ => Some (fresh_child sfx) end
   | _ => Some ck
   end.
+
+(* the file's lines are in the memory, and every memory entry is a line of the file or a
+   name of one of the downloaded lists *)
+Definition file_plus_downloads (downloads : list str) (m1 wild1 : list str) (f : str) : bool :=
+  let ls := List.tl (split_lines f) in
+  let fm := filter (fun l => negb (has_prefix persist_wildp l)) ls in
+  let fw := List.map (skipn 2) (filter (has_prefix persist_wildp) ls) in
+  let dnames := List.map canonical (List.concat (List.map fields (List.concat (List.map split_lines downloads)))) in
+  subset fm m1 && subset fw wild1 &&
+  forallb (fun e => mem e fm || mem e dnames) m1 &&
+  forallb (fun e => mem e fw || mem (persist_wildp ++ e) dnames) wild1.
 
 Definition whitelist_of (wl : list str) : list str := fold_left (fun w e => add (canonical e) w) wl [].
 
@@ -199,6 +224,14 @@ Definition check_case (c : case) : bool :=
       match s_local s3, file1 with
       | None, None => true
       | Some a, Some f => if is_nil (s_pending s1) then str_eqb a f else file_is_snapshot (bm b') (bwild b') f
+      | _, _ => false
+      end
+  | CaseRHistory m0 wild0 w steps m1 wild1 file =>
+      let '(ok, s) := run_rh steps (mk_sys (mk_bl m0 wild0 w) 0 0 None []) in
+      ok && same_set (bm (s_mem s)) m1 && same_set (bwild (s_mem s)) wild1 &&
+      match s_local s, file with
+      | None, None => true
+      | Some a, Some f => same_set (split_lines a) (split_lines f) && str_eqb f (lines_bytes (split_lines f))
       | _, _ => false
       end
   | CaseReload whitelist blocklist files mem_m mem_wild re_m re_wild re_w =>
@@ -282,16 +315,19 @@ Definition spec_case (c : case) : bool :=
       then (if ret =? 0 then opt_str_eqb file0 file1 && same_set m0 m1 && same_set wild0 wild1
             else match file1 with Some f => file_is_snapshot m1 wild1 f | None => false end)
       else match file1 with
-           | Some f =>
-               let ls := List.tl (split_lines f) in
-               let fm := filter (fun l => negb (has_prefix persist_wildp l)) ls in
-               let fw := List.map (skipn 2) (filter (has_prefix persist_wildp) ls) in
-               let dnames := List.map canonical (List.concat (List.map fields (List.concat (List.map split_lines downloads)))) in
-               subset fm m1 && subset fw wild1 &&
-               forallb (fun e => mem e fm || mem e dnames) m1 &&
-               forallb (fun e => mem e fw || mem (persist_wildp ++ e) dnames) wild1
+           | Some f => file_plus_downloads downloads m1 wild1 f
            | None => ret =? 0
            end
+  | CaseRHistory m0 wild0 w steps m1 wild1 file =>
+      let dls := List.concat (List.map (fun st => match st with RHRefresh dl => dl | _ => [] end) steps) in
+      let ops := List.concat (List.map (fun st => match st with RHOp o r => [(o, r)] | _ => [] end) steps) in
+      match file with
+      | Some f => if is_nil dls then file_is_snapshot m1 wild1 f else file_plus_downloads dls m1 wild1 f
+      | None => negb (any_success ops)
+      end &&
+      (* a refresh never unblocks: what Set accepted and nobody removed is blocked *)
+      forallb (fun ck => match listed_probe ck with Some q => spec_blocks m1 wild1 w q | None => true end)
+              (set_survives ops)
   | CaseReload whitelist blocklist files mem_m mem_wild re_m re_wild re_w =>
       (* the reloaded list blocks exactly the names the memory that was persisted blocks *)
       same_set (whitelist_of whitelist) re_w &&
